@@ -509,7 +509,7 @@ func jsonMain(args mon.Args) {
 			one(c, fc.Desc, i < 5)
 		case 5:
 			cnt := g.Range(1, 30)
-			c := &jsonCase{Proto: "nf5", Addr: mon.Hex(wire.GenAddr(g)), Dgrams: []string{mon.Hex(genNf5(g, 5, cnt, 0))}}
+			c := &jsonCase{Proto: "nf5", Addr: mon.Hex(wire.GenAddr(g)), Dgrams: []string{mon.Hex(wire.GenNf5(g, 5, cnt, 0))}}
 			one(c, fmt.Sprintf("count=%d", cnt), i < 8)
 		default:
 			d := wire.GenSFDatagram(g, true)
